@@ -148,10 +148,8 @@ func (m *Manager) handlePotentialHeader(ctx context.Context, bz []byte, daHeight
 		select {
 		case <-ctx.Done():
 			return true
-		default:
-			m.logger.Warn("headerInCh backlog full, dropping header: daHeight ", daHeight)
+		case m.headerInCh <- NewHeaderEvent{header, daHeight}:
 		}
-		m.headerInCh <- NewHeaderEvent{header, daHeight}
 	}
 	return true
 }
@@ -188,10 +186,8 @@ func (m *Manager) handlePotentialData(ctx context.Context, bz []byte, daHeight u
 		select {
 		case <-ctx.Done():
 			return
-		default:
-			m.logger.Warn("dataInCh backlog full, dropping signed data", "daHeight", daHeight)
+		case m.dataInCh <- NewDataEvent{&signedData.Data, daHeight}:
 		}
-		m.dataInCh <- NewDataEvent{&signedData.Data, daHeight}
 	}
 }
 
